@@ -578,6 +578,11 @@ def suite_kernel_euclid(ctx, K, rng, ncases, maxdim):
     reqs, outs, meta = [], [], []
     for c in range(ncases):
         n = rng.choice([0, 1, 2, 3, 4, 5, 7, 10])
+        if c in (1, 2):
+            # round 5: beyond the range of 8-bit counters / indices (the driver answers through
+            # `symBlock`, theorem euclKernel_block)
+            n = (130, 260)[c - 1]
+            ctx.count(f"kernel-euclid:N={n}")
         d = rng.randrange(1, maxdim + 1)
         X = [[Fr(rng.randrange(-64, 65), 4) for _ in range(n)] for _ in range(d)]
         Xa = np.array([[float(v) for v in r] for r in X], dtype=np.float32).reshape(d, n)
@@ -761,6 +766,15 @@ def suite_grid_node_number(ctx, Grid, rng, ncases):
                 flipped += 1
             if ok and sum(1 for v in s2 if lo * v <= hi * min(s2)) > 1:
                 ctx.count("grid-node_number:float-stream:near-tie-within-rounding-factor")
+            if ok:
+                # theorem gridNodeNumber_rounded_first: first among nodes with identical coordinates
+                first = min(i for i in range(n) if all(X[k, i] == X[k, got] for k in range(d)))
+                if first != got:
+                    ctx.fail({"kind": "lookup", "class": "Grid", "method": "node_number",
+                              "clause": "first-identical"},
+                             f"Grid.node_number returned node {got} although node {first} has "
+                             "identical coordinates (argmin must return the first minimiser)",
+                             {"space_seq": X.tolist(), "x": q, "x_as": qc, "observed": ans})
             if not ok:
                 ctx.fail({"kind": "lookup", "class": "Grid", "method": "node_number"},
                          "Grid.node_number does not return a node at minimal distance (up to the "
@@ -931,6 +945,7 @@ def suite_angular(ctx, GeoGrid, rng, ncases, K):
     stats = {"abs": 0.0, "rel": 0.0, "pairs": 0}
     eta = {"all": 0.0, "end": 0.0, "pairs": 0, "end_pairs": 0}
     tab = {"delta": 0.0, "eps_lat": 0.0, "eps_lon": 0.0, "round": 0.0, "entries": 0, "pairs": 0}
+    kreqs, kimpl = [], []
     for c in range(ncases):
         cur = {}
         with ImplGuard(ctx, "GeoGrid.angular_distance", cur, [reqs, outs, metas]):
@@ -990,6 +1005,17 @@ def suite_angular(ctx, GeoGrid, rng, ncases, K):
                     eta["end"] = max(eta["end"], float(dc[endz].max()))
                     eta["end_pairs"] += int(endz.sum())
                 viol += kernel_rounding(ctx, g, C32, n, tab)
+                if all(t.dtype == np.float32 for t in
+                                   (g.sin_lat(), g.cos_lat(), g.sin_lon(), g.cos_lon())):
+                    # round 5: the model `cosAngKernel` executed in IEEE single precision on the
+                    # kernel's own (generic, non-dyadic) tables must store the same bit patterns
+                    # (all sizes incl. the 130-node grid: the driver answers through `symBlock`
+                    # beyond 16 nodes, theorem cosAngKernel_block)
+                    kreqs.append("cosangf32 %d %s %s %s %s" % (
+                        n, enc_rats(map(float, g.sin_lat())), enc_rats(map(float, g.cos_lat())),
+                        enc_rats(map(float, g.sin_lon())), enc_rats(map(float, g.cos_lon()))))
+                    kimpl.append(";".join(",".join(str(int(b)) for b in row)
+                                          for row in C32.view(np.uint32)) or "-")
             for clause, what in viol:
                 ctx.fail({"kind": "angular", "class": "GeoGrid", "method": "angular_distance",
                           "clause": clause},
@@ -1050,6 +1076,8 @@ def suite_angular(ctx, GeoGrid, rng, ncases, K):
         "max_abs_err_log2": round(math.log2(stats["abs"]), 2) if stats["abs"] else None,
         "max_rel_err_mid_log2": round(math.log2(stats["rel"]), 2) if stats["rel"] else None,
         "bounds_log2": {"abs": -10, "rel_mid": -17}}
+    ctx.correspond("Lean cosAngKernel in IEEE Float32 == _calculate_angular_distance on the grid's own "
+                   "float32 tables (bit patterns of every stored cosine)", kreqs, kimpl)
     custom_correspond(ctx, "Lean gridDistance .geo (Float, GeoGrid object) ~ GeoGrid.angular_distance / distance "
                       "(abs < 2^-10, rel <= 2^-17 on [0.25, pi-0.25])", reqs, judge)
 
